@@ -9,6 +9,7 @@ CONSTANTS
   UseDup = FALSE
   DupElems = TRUE
   BeyondLen = 0
+  ScriptName = "none"
   Reps <- MCReps
   Actors <- MCActors
   ActorOf <- MCActorOf
